@@ -77,6 +77,16 @@ def _apply(app, rule, val, source, rec):
     raise ValueError(rule)
 
 
+def _container_source(rec):
+    """source of a container handed to a step: the proxy's source, else the first element's"""
+    inner = getattr(rec, "obj", rec)
+    if inner is not rec:
+        return rec.source
+    for x in inner:
+        return getattr(x, "source", None)
+    return None
+
+
 def _plan_get(plan, key, default):
     return plan.get(str(key), plan.get(key, default))
 
@@ -112,6 +122,9 @@ class {name}:
     def main(self, rec: {hint}) -> Union[RecA, RecB, SerialisableType]:
         if isinstance(rec, NotCompleted):
             return _apply(self, self.default, 0, rec.source, rec)
+        if isinstance(getattr(rec, "obj", rec), (list, tuple, set)):
+            # container data (bare or inside a source proxy): a record counting the elements (Lean codec C14Rich.parseStep)
+            return RecA(len(rec), source=_container_source(rec))
         return _apply(self, _plan_get(self.plan, rec.val, self.default), rec.val, rec.source, rec)
 """
     ns = {}
@@ -224,3 +237,67 @@ class c14_load_named:
             t.source = str(path)
             return t
         return RecA(len(p.stem), source=str(path))
+
+
+# ---------------------------------------------------------------------------
+# apps with plain (non-serialisable) type hints, a writer and a non-composable app: operands for the `_add` tie
+# ---------------------------------------------------------------------------
+from cogent3.app.composable import NON_COMPOSABLE, WRITER  # noqa: E402
+
+
+@define_app
+class c14_t_a2a:
+    def main(self, rec: RecA) -> RecA:
+        return rec
+
+
+@define_app
+class c14_t_a2b:
+    def main(self, rec: RecA) -> RecB:
+        return RecB(rec.val, source=rec.source)
+
+
+@define_app
+class c14_t_b2ab:
+    def main(self, rec: RecB) -> Union[RecA, RecB]:
+        return rec
+
+
+@define_app
+class c14_t_ab2s:
+    def main(self, rec: Union[RecA, RecB]) -> SerialisableType:
+        return rec
+
+
+@define_app
+class c14_t_s2a:
+    def main(self, rec: SerialisableType) -> RecA:
+        return rec
+
+
+@define_app(app_type=LOADER)
+class c14_t_load_a:
+    def main(self, path: IdentifierType) -> RecA:
+        return RecA(0, source=str(path))
+
+
+@define_app(app_type=WRITER)
+class c14_t_write_a:
+    def main(self, data: RecA, identifier=None) -> IdentifierType:
+        return identifier
+
+
+@define_app(app_type=WRITER)
+class c14_t_write_s:
+    def main(self, data: SerialisableType, identifier=None) -> IdentifierType:
+        return identifier
+
+
+@define_app(app_type=NON_COMPOSABLE)
+class c14_t_noncomp:
+    def main(self, rec: RecA) -> RecA:
+        return rec
+
+
+ADD_POOL = ["c14_t_a2a", "c14_t_a2b", "c14_t_b2ab", "c14_t_ab2s", "c14_t_s2a", "c14_t_load_a", "c14_t_write_a", "c14_t_write_s",
+            "c14_t_noncomp", "c14_load", "c14_step1a", "c14_step2ab", "c14_step3ns"]
